@@ -84,7 +84,7 @@ def run():
             # ---- runs of the real interpreter under slice schedules
             prog = sc.file("run_%s.scm" % name)
             open(prog, "w").write(driver.replace(";;SCENARIO", schedscen.scheme_datum(name) + ";;"))
-            lists = slice_lists(chk.rng, 60 if chk.thorough else 14, 120 if chk.thorough else 24)
+            lists = slice_lists(chk.rng, 150 if chk.thorough else 14, 300 if chk.thorough else 24)
 
             def one(i_sl):
                 i, sl = i_sl
